@@ -525,19 +525,22 @@ where
                         }
                         _ => None,
                     }));
-                    extends
-                        .iter()
-                        .filter_map(|parent| parent.expr.as_ident())
-                        .for_each(|ident| {
+                    extends.iter().for_each(|parent| {
+                        if let Some(ident) = parent.expr.as_ident() {
                             self.resolve_type_elements(
                                 &TsType::TsTypeRef(TsTypeRef {
                                     type_name: TsEntityName::Ident(ident.clone()),
-                                    type_params: None,
+                                    type_params: parent.type_args.clone(),
                                     span: DUMMY_SP,
                                 }),
                                 props,
                             )
-                        });
+                        } else {
+                            HANDLER.with(|handler| {
+                                handler.span_err(parent.span, "Unresolvable type.");
+                            });
+                        }
+                    });
                 } else if ident.ctxt.has_mark(self.unresolved_mark) {
                     match &*ident.sym {
                         "Partial" => {
